@@ -293,6 +293,9 @@ pub struct StreamObs {
 pub struct Obs {
     pub streams: Vec<StreamObs>,
     pub ends: u64,
+    /// 1 unless a one-shot request was dropped unresolved: its future then stays pending for ever
+    /// with no waker, the task is (rightly) evicted and never reaches its end
+    pub expect_ends: u64,
     pub done: bool,
 }
 
@@ -336,7 +339,8 @@ pub fn finish(inst: Inst) -> Obs {
         streams.push(StreamObs { ok: ok[i].clone(), got, spent, probe: probes[i] });
     }
     let ends = events.iter().filter(|e| **e == Evt::End).count() as u64;
-    Obs { streams, ends, done }
+    let once_dropped = (0..n).any(|i| inst.sc.kinds[i] == Kind::Once && dropped[i] && ok[i].is_empty());
+    Obs { streams, ends, expect_ends: u64::from(!once_dropped), done }
 }
 
 /// Number of waker clones each successive poll of the task leaves behind (= streams that are not
@@ -411,7 +415,7 @@ pub fn case_json(sc: &Scenario, out: &RunOutcome, obs: &Obs, tag: &str) -> Strin
         .map(|s| format!("{{\"ok\":{:?},\"got\":{:?},\"spent\":{},\"probe\":{}}}", s.ok, s.got, s.spent, s.probe))
         .collect();
     format!(
-        "{{\"proto\":\"P2\",\"scen\":\"{}\",\"tag\":\"{}\",\"sched\":{:?},\"feasible\":{},\"hung\":{},\"panic\":{},\"slices\":[{}],\"streams\":[{}],\"ends\":{},\"done\":{},\"trace\":{}}}",
+        "{{\"proto\":\"P2\",\"scen\":\"{}\",\"tag\":\"{}\",\"sched\":{:?},\"feasible\":{},\"hung\":{},\"panic\":{},\"slices\":[{}],\"streams\":[{}],\"ends\":{},\"expect_ends\":{},\"done\":{},\"trace\":{}}}",
         sc.name,
         tag,
         out.schedule,
@@ -421,6 +425,7 @@ pub fn case_json(sc: &Scenario, out: &RunOutcome, obs: &Obs, tag: &str) -> Strin
         slices_json.join(","),
         streams_json.join(","),
         obs.ends,
+        obs.expect_ends,
         obs.done,
         fmt_trace(&out.trace)
     )
